@@ -131,6 +131,27 @@ func (w *slhWorld) fail(prop, class, format string, a ...any) {
 	w.rc.Fail(class, format, a...)
 }
 
+// isFakePool: the address ranges fakeAddrs draws from (no node lives there, no honest node reports them).
+func isFakePool(a netip.AddrPort) bool {
+	ip := a.Addr()
+	if ip.Is4() {
+		b := ip.As4()
+		switch {
+		case b[0] == 10 && b[1] == 128 && b[2] == 0 && b[3] >= 50 && b[3] < 150:
+			return true
+		case b[0] == 2 && b[1] == 0 && b[2] == 0 && b[3] >= 200:
+			return true
+		case b[0] == 192 && b[1] == 168 && b[2] == 7 && b[3] >= 200:
+			return true
+		case b[0] == 198 && b[1] == 51 && b[2] == 100:
+			return true
+		}
+		return false
+	}
+	b := ip.As16()
+	return b[0] == 0x20 && b[1] == 0x01 && b[2] == 0x0d && b[3] == 0xb8 && b[14] == 1
+}
+
 func altAddrs(i int) []netip.AddrPort {
 	return []netip.AddrPort{
 		netip.AddrPortFrom(netip.AddrFrom4([4]byte{2, 0, 0, byte(i + 1)}), 4242),
@@ -553,6 +574,33 @@ func (w *slhWorld) checkCaches(nd *simNode, ev string) bool {
 			return false
 		}
 	}
+	// provenance (C35): the byzantine peer's invented addresses come from pools no honest node ever reports. While
+	// the lighthouse is honest they may only ever sit in the entries for the byzantine peer's own overlay addresses
+	// (what it reports about itself, and what the lighthouse hands on about it) — in anybody else's entry they were
+	// recorded for an address the sender was not authenticated as.
+	if w.byz != 0 {
+		zAddrs := w.nodes[w.byz].f.myVpnAddrs
+		for i, rl := range lists {
+			if slices.Contains(zAddrs, addrs[i]) {
+				continue
+			}
+			shared := false // the same list object may also be filed under one of Z's addresses
+			for j, other := range lists {
+				if other == rl && slices.Contains(zAddrs, addrs[j]) {
+					shared = true
+				}
+			}
+			if shared {
+				continue
+			}
+			for _, a := range rl.CopyAddrs(nil) {
+				if isFakePool(a) {
+					w.fail("C35", "foreign-entry-polluted", "node %d after %s: the address cache entry for %v holds %v, an address only the byzantine peer %v ever names, although that peer is not %v", nd.idx, ev, addrs[i], a, zAddrs, addrs[i])
+					return false
+				}
+			}
+		}
+	}
 	for _, hi := range sortedHostInfos(nd.f.hostMap) {
 		if hi.remotes != nil && !seen[hi.remotes] {
 			seen[hi.remotes] = true
@@ -791,6 +839,19 @@ func (w *slhWorld) byzantineMessage() {
 	b, err := msg.Marshal()
 	if err != nil {
 		return
+	}
+	if tp.Chance(1, 7) && len(b) > 6 {
+		// malformed on the wire: the decoder gets through part of the message and then fails (cut short, trailing
+		// garbage, a corrupted length). Nothing of it may be acted on — not now and not as residue in the next message.
+		switch tp.Choose(3) {
+		case 0:
+			b = b[:len(b)-1-tp.Choose(3)]
+		case 1:
+			b = append(b, 0xff, 0xff, 0xff)
+		case 2:
+			b[len(b)-1-tp.Choose(len(b)/3)] ^= 0x80
+		}
+		w.stats["fault.byzantine.malformed"]++
 	}
 	// let whatever the target had queued before this message (punches scheduled by earlier, authorized lighthouse
 	// messages; a stalled node has not run its workers) go out first, so that what follows the probe is the probe's
